@@ -126,7 +126,14 @@ def job_clip(j, seed):
             chk(f'{P}:nothing inside => no subframe', C.B.const(out is None), p.pc, 'C11:clip:empty')
             continue
         if out is None:
-            chk(f'{P}:subframe expected', C.FALSE, p.pc, 'C11:clip:empty')
+            # no subframe although vertices lie inside the window: only acceptable when what is inside has no area
+            # (a neutron of the open set is then not lost); shoelace formula over the expected polygon
+            with C.oracle():
+                area2 = C.R.lift(0)
+                for m_ in range(len(expect)):
+                    a_, b_ = expect[m_], expect[(m_ + 1) % len(expect)]
+                    area2 = area2 + a_[0] * b_[1] - b_[0] * a_[1]
+            chk(f'{P}:no subframe only when the part inside the window has zero area', area2 == 0, p.pc, 'C11:clip:empty')
             continue
         ot, ow = list(out.time.values), list(out.wavelength.values)
         chk(f'{P}:vertex count {len(expect)}', C.B.const(len(ot) == len(expect) and len(ow) == len(expect)), p.pc, 'C11:clip:count')
@@ -638,12 +645,24 @@ def replay_real(case):
                 bad.append(f'subbounds() raises for pulse t=[{t0!r},{t1!r}] s, lambda=[{w0!r},{w1!r}] A, chopper at {d!r} m open [{o!r},{c!r}] s')
                 break
     elif kind == 'clip':
+        model = case.get('model') or {}
         for trial in range(300):
             n = case['n']
             ang = np.sort(rng.uniform(0, 2 * np.pi, size=n))
             t = 5 + 3 * np.cos(ang) * rng.uniform(0.5, 1)
             w = 5 + 3 * np.sin(ang) * rng.uniform(0.5, 1)
             T = rng.uniform(1, 9)
+            if trial == 0 and 'T' in model and all(f't{i}' in model and f'w{i}' in model for i in range(n)):
+                # the solver's counterexample first (exact rationals -> nearest doubles)
+                from fractions import Fraction as F
+                t = np.array([float(F(model[f't{i}'])) for i in range(n)])
+                w = np.array([float(F(model[f'w{i}'])) for i in range(n)])
+                T = float(F(model['T']))
+            elif trial % 3 == 1:
+                # a cut that leaves only a thin sliver of the polygon inside the window (late arrival times)
+                t = t + 10 ** rng.uniform(0, 3)
+                edge = t.min() if not case['close_to_open'] else t.max()
+                T = edge + (1 if not case['close_to_open'] else -1) * (t.max() - t.min()) * 10 ** rng.uniform(-9, -5)
             sub = cc.Subframe(time=sc.array(dims=['vertex'], values=t, unit='s'), wavelength=sc.array(dims=['vertex'], values=w, unit='angstrom'))
             far = sc.array(dims=['slit'], values=[1e6 if case['close_to_open'] else -1e6], unit='s')
             cut = sc.array(dims=['slit'], values=[T], unit='s')
@@ -662,7 +681,13 @@ def replay_real(case):
                 if out is not None:
                     bad.append('subframe for empty intersection')
                 continue
-            if out is None or len(out.time) != len(exp) or not np.allclose(out.time.values, [e[0] for e in exp], rtol=1e-12) or not np.allclose(out.wavelength.values, [e[1] for e in exp], rtol=1e-9):
+            area2 = sum(exp[m_][0] * exp[(m_ + 1) % len(exp)][1] - exp[(m_ + 1) % len(exp)][0] * exp[m_][1] for m_ in range(len(exp)))
+            if out is None and abs(area2) > 0 and len(exp) >= 3:
+                bad.append(f'no subframe although the part of {list(zip(t.tolist(), w.tolist()))} {"after" if case["close_to_open"] else "before"} T={T!r} has area {abs(area2) / 2:.3g} s*angstrom')
+                break
+            if out is None:
+                continue
+            if len(out.time) != len(exp) or not np.allclose(out.time.values, [e[0] for e in exp], rtol=1e-12) or not np.allclose(out.wavelength.values, [e[1] for e in exp], rtol=1e-9):
                 bad.append(f'clip of {list(zip(t, w))} at T={T}: got {None if out is None else list(zip(out.time.values, out.wavelength.values))}')
                 break
     elif kind == 'framechop':
